@@ -1041,6 +1041,10 @@ def dict_get(X, obj, args, kw, node):
         X.unsupported('concrete dict .get with symbolic key', node)
     kt = coerce_term(k, c.K.sort)
     d = deref(default)
+    zs = getattr(X.spec, 'zero_sentinels', {})
+    if isinstance(d, Con) and isinstance(d.v, int) and not isinstance(d.v, bool) and d.v == 0 \
+            and isinstance(c.V, TScalar) and c.V.sort.name() in zs:
+        d = ZV(zs[c.V.sort.name()])     # `0` used as a sentinel next to object values
     if isinstance(d, Con) and d.v == {} and isinstance(c.V, TDict):
         d = c.V.empty()
     if isinstance(d, TupV) and not d.items and isinstance(c.V, TSet):
@@ -1200,6 +1204,8 @@ def list_popleft(X, obj, args, kw, node):
     i = z3.Int('i_popl')
     for na, a in zip(ats, c.ats):
         X.assume(forall([i], na[i] == a[i + 1], patterns=[na[i]]))
+        # the same fact seen from the old list (gives E-matching the shifted terms)
+        X.assume(forall([i], z3.Implies(i >= 1, a[i] == na[i - 1]), patterns=[a[i]]))
     _write_back(X, obj, ListV(c.E, c.n - 1, ats), node)
     return v
 
@@ -1256,6 +1262,7 @@ def list_rotate(X, obj, args, kw, node):
         if k.v == -1:
             X.assume(forall([i], na[i] == z3.If(i == c.n - 1, a[0], a[i + 1]),
                                patterns=[na[i]]))
+            X.assume(forall([i], a[i] == z3.If(i == 0, na[c.n - 1], na[i - 1]), patterns=[a[i]]))
         else:
             X.assume(forall([i], na[i] == z3.If(i == 0, a[c.n - 1], a[i - 1]),
                                patterns=[na[i]]))
